@@ -24,6 +24,12 @@ def run_property(pid, repo, tier, seed, only_key=None):
         ctx = report.Ctx(pid, P, tier=tier, seed=seed, only_key=only_key)
         try:
             explanation = mod.check(ctx)
+            if not only_key or '-RF|' in only_key:
+                from . import forwarding
+                if forwarding.instances(ctx):
+                    forwarding.rule_forwarding(ctx, 'RF')
+                    explanation += (' RF: a frozen table of option-forwarding instances (sa/tables/forwarding.json) is re-decided from the source: every call of the '
+                                    'worker inside the listed function still receives the caller\'s option (verbatim, or derived from it where the function normalises it).')
             if tier == 'thorough' and not only_key:
                 from . import thorough
                 thorough.extra(ctx)
